@@ -9,6 +9,29 @@ import numpy as np
 from vmon import geom
 
 _installed = {}
+CASE_FROM_CALL = {'on': False, 'test': lambda: None}      # suite lane: every monitored call becomes its own replayable case
+
+
+def _suite_case(obs, op, region, coords=None, kw=None):
+    from vmon import spec as S
+    case = {'lane': 'suite:' + op, 'op': op, 'test': CASE_FROM_CALL['test'](), 'region': S.describe(region)}
+    if coords is not None:
+        case['coords'] = S.describe(coords)
+    if kw:
+        case['kw'] = {k: v for k, v in kw.items() if isinstance(v, (int, str, float, type(None)))}
+    obs.begin(case)
+
+
+def replay_suite_case(case, obs):
+    """re-execute one monitored call recorded by the suite lane (monitors must be installed)."""
+    from vmon import spec as S
+    region = S.build(case['region'])
+    if case['op'] == 'contains':
+        region.contains(S.build(case['coords']))
+    elif case['op'] == 'bounding_box':
+        region.bounding_box
+    elif case['op'] == 'to_mask':
+        region.to_mask(**case.get('kw', {}))
 
 
 def pixel_classes():
@@ -114,6 +137,13 @@ def install_contains_monitor(obs):
         def contains(self, pixcoord, *a, **k):
             result = orig(self, pixcoord, *a, **k)
             try:
+                if CASE_FROM_CALL['on'] and obs.case is None:
+                    _suite_case(obs, 'contains', self, coords=pixcoord)
+                    try:
+                        judge_contains(obs, self, pixcoord, result)
+                    finally:
+                        obs.end()
+                    return result
                 judge_contains(obs, self, pixcoord, result)
             except Exception as exc:       # oracle trouble must never change behaviour
                 obs.count('harness_errors')
@@ -208,6 +238,11 @@ def install_bbox_monitor(obs):
         @functools.wraps(orig)
         def bounding_box(self):
             result = orig(self)
+            if CASE_FROM_CALL['on'] and obs.case is None:
+                _harness_guard(obs, _suite_case, obs, 'bounding_box', self)
+                _harness_guard(obs, judge_bbox, obs, self, result)
+                obs.end() if obs.case is not None else None
+                return result
             _harness_guard(obs, judge_bbox, obs, self, result)
             return result
         return bounding_box
@@ -238,6 +273,17 @@ def install_to_mask_monitor(obs, judges):
             kw = dict(defaults)
             kw.update(zip(names, a))
             kw.update(k)
+            own_case = False
+            if CASE_FROM_CALL['on'] and obs.case is None:
+                _harness_guard(obs, _suite_case, obs, 'to_mask', self, None, kw)
+                own_case = obs.case is not None
+            try:
+                for j in judges:
+                    _harness_guard(obs, j, obs, self, kw.get('mode', 'center'), kw.get('subpixels', None), result)
+            finally:
+                if own_case:
+                    obs.end()
+            return result
             for j in judges:
                 _harness_guard(obs, j, obs, self, kw.get('mode', 'center'), kw.get('subpixels', None), result)
             return result
